@@ -27,6 +27,7 @@ def shapes_of(toks):
         nxt = ops[k + 1] if k + 1 < n else None
         if op in ('txn', 'gtxns') and args and args[-1] in KIND_FIELDS: tags.add('kindcheck')
         if op == 'gtxn' and args[-1] in KIND_FIELDS: tags.add('kindcheck')
+        if op == 'addr' and args[0] == 'AAAAAAAAAAAAAAAAAAAAAAAAAAAAAAAAAAAAAAAAAAAAEVAL4QAJS7JHB4': tags.add('zeroAddrConst')
         if op == 'callsub':
             if nxt is None: tags.add('callsubLast')
             elif nxt[1] == 'label': tags.add('retPointJoin')
